@@ -262,6 +262,24 @@ def run_case(job, acc: Acc):
     path = os.path.join(root, "zquser.f90")
     s.open(path)
     base_lines = files["zquser.f90"].split("\n")
+    # Every context is asked twice in the one session: first as the history left it, then again after completions in
+    # *other* contexts (an entity name in a declaration, an accessibility list, IMPORT, PROCEDURE(...)), whose answers
+    # are not judged: what the server computes for one request must not change the answer to a later one.
+    for phase in ("first", "after_other_contexts"):
+        if phase == "after_other_contexts":
+            body = marks.get("body") or next(iter(marks.values()))
+            for other in ("  integer :: zq", "  private :: zq", "  public zq", "  import zq", "  import :: zq", "  procedure(zq", "  class(zq"):
+                new = list(base_lines)
+                new[body[0]] = other
+                s.change(path, [{"text": "\n".join(new)}])
+                s.result("textDocument/completion", Server.tdpp(path, body[0], len(other)))
+                acc.count("unjudged_completions_in_other_contexts")
+        _ask_contexts(s, path, base_lines, marks, inner_names, names, scope, access, files, acc, phase)
+    if len(acc.samples) < 2:
+        acc.sample({"access": access, "scope": scope, "user_file": files["zquser.f90"]})
+
+
+def _ask_contexts(s, path, base_lines, marks, inner_names, names, scope, access, files, acc, phase):
     for ctx, (ln, before, after) in marks.items():
         scope_names = inner_names if (inner_names and scope == "internal_procedure") else names
         req_all, opt_all = expected(ctx, scope_names, access)
@@ -284,8 +302,8 @@ def run_case(job, acc: Acc):
                 opt = {n for n in opt_all if n.startswith(pref)}
                 missing = req - mine
                 extra = mine - req - opt
-                acc.case(nontrivial_key=(access, scope, ctx, typed) if req else None, outcome=(ctx, len(req)))
-                case = {"access": access, "scope": scope, "context": ctx, "typed": typed, "files": files, "line": ln}
+                acc.case(nontrivial_key=(access, scope, ctx, typed, phase) if req else None, outcome=(ctx, len(req)))
+                case = {"access": access, "scope": scope, "context": ctx, "typed": typed, "files": files, "line": ln, "phase": phase}
                 tags = {"family": "completion", "context": ctx, "access": access, "scope": scope, "upper": typed != pref}
                 if isinstance(r, tuple):
                     acc.violation(Violation("completion", {**tags, "obs": "error", "class": ""}, case, sorted(req), r, what=f"{access}/{scope}/{ctx} {typed!r}: {r}"))
@@ -300,8 +318,6 @@ def run_case(job, acc: Acc):
                 if foreign and len(pref) >= 2:
                     acc.violation(Violation("completion", {**tags, "obs": "not_matching_prefix", "class": ""}, case, f"labels starting with {pref}", sorted(foreign)[:5],
                                             what=f"{access}/{scope}/{ctx} typed {typed!r}: offers {sorted(foreign)[:3]}"))
-    if len(acc.samples) < 2:
-        acc.sample({"access": access, "scope": scope, "user_file": files["zquser.f90"]})
 
 
 CHAIN = {
